@@ -164,7 +164,7 @@ def Shape.goodFloat : Shape → Bool
 def toBool : Src → Option Bool
   | .bool b => some b
   | .str "1" | .str "true" | .str "yes" => some true
-  | .str "0" | .str "false" | .str "np" => some false
+  | .str "0" | .str "false" | .str "no" => some false
   | _ => none
 
 /-- mathematical value of an integer source -/
